@@ -196,3 +196,39 @@ func (vc *VC) loopFrameFacts(li *LoopInfo) map[string]bool {
 	}
 	return ok
 }
+
+// loopSingleBase: Mem_ heaps all of whose writes inside the loop are element stores (Store through
+// IndexAddr, in bounds by the safety obligation) into one slice value defined outside the loop.
+func (vc *VC) loopSingleBase(li *LoopInfo) map[string]ssa.Value {
+	bases := map[string]ssa.Value{}
+	bad := map[string]bool{}
+	for b := range li.blocks {
+		for _, in := range b.Instrs {
+			for _, w := range vc.instrWrites(in) {
+				if w.heap == "*" {
+					return nil
+				}
+				st, isStore := in.(*ssa.Store)
+				ok := false
+				if isStore && w.base != nil {
+					if ia, isIA := st.Addr.(*ssa.IndexAddr); isIA && ia.X == w.base {
+						if _, isSl := w.base.Type().Underlying().(*types.Slice); isSl {
+							if bi, isInstr := w.base.(ssa.Instruction); !isInstr || !li.blocks[bi.Block()] {
+								ok = true
+							}
+						}
+					}
+				}
+				if !ok || (bases[w.heap] != nil && bases[w.heap] != w.base) {
+					bad[w.heap] = true
+					continue
+				}
+				bases[w.heap] = w.base
+			}
+		}
+	}
+	for h := range bad {
+		delete(bases, h)
+	}
+	return bases
+}
